@@ -740,3 +740,55 @@ Definition iid_from_mac (mac : bytes) : bytes :=
   | [m0; m1; m2; m3; m4; m5] => [N.lxor m0 2; m1; m2; 255; 254; m3; m4; m5]%N
   | _ => [0;0;0;0;0;0;0;0]%N
   end.
+
+(* ---- LCP inside a session (internal/pppoe/session.go initPPP + up; component.go installInMemoryState) ----
+   initPPP: NewLCP (random magic), SetAuthProto(CHAP, MD5); up(): Up + Open, our Configure-Request goes out.
+   installInMemoryState: SetMagic(checkpointed magic), FSM.Restore (Opened, nothing sent).
+   "Its own magic number" for the subscriber is the one our Configure-Request announces; ProcessConfReq
+   compares with local.Magic. *)
+Record lsess := mkls { ls_obj : lobj; ls_fsm : N; ls_last : list opt; ls_open : bool }.
+Inductive lev :=
+| SLStart                                   (* up(): Up + Open *)
+| SLReq (id : N) (wire : bytes)             (* the subscriber's Configure-Request *)
+| SLEcho (id : N)                           (* ... carrying exactly the Magic-Number option of our last request *)
+| SLAck                                    (* our last request acknowledged verbatim *)
+| SLNak (wire : bytes)                     (* Configure-Nak with our last identifier *)
+| SLRej (wire : bytes).                    (* Configure-Reject with our last identifier *)
+
+(* initPPP *)
+Definition lsess0 (random_magic : N) : lsess :=
+  mkls (mklobj default_pppoe_mru random_magic proto_chap chap_md5 true [] lpeer0) 0 [] false.
+(* installInMemoryState with a checkpointed magic (SetMagic only when non-zero) *)
+Definition lsess_restored (random_magic saved : N) : lsess :=
+  mkls (mklobj default_pppoe_mru (if N.eqb saved 0 then random_magic else saved) proto_chap chap_md5 true [] lpeer0)
+       9 [] true.
+
+Definition l_next (o : lobj) (acts : list act) (last : list opt) : list opt :=
+  if existsb (fun a => match a with Scr => true | _ => false end) acts then lcp_build o else last.
+Definition with_lpeer (o : lobj) (p : lcp_peer) : lobj :=
+  mklobj (lo_mru o) (lo_magic o) (lo_auth o) (lo_algo o) (lo_want o) (lo_rej o) p.
+
+Definition lsess_step (fl : flags) (s : lsess) (e : lev) : lsess * list act :=
+  let o := ls_obj s in
+  let fin (o' : lobj) (r : list act * N) :=
+    (mkls o' (snd r) (l_next o' (fst r) (ls_last s)) (v6_open (fst r) (ls_open s)), fst r) in
+  let req id wire :=
+    let '(a, st', p') := lcp_input fl (lo_magic o) (ls_fsm s) (lo_peer o) id wire in
+    fin (with_lpeer o p') (a, st') in
+  match e with
+  | SLStart => fin o (up_open (ls_fsm s))
+  | SLReq id wire => req id wire
+  | SLEcho id => req id (serialize_options (filter (fun x => N.eqb (o_type x) 5) (ls_last s)))
+  | SLAck => fin (fold_left (lcp_learn_opt false) (ls_last s) o) (rca_event (ls_fsm s) 0)
+  | SLNak w => fin (fold_left (lcp_learn_opt true) (parse_lenient w) o) (rcn_event (ls_fsm s) 0)
+  | SLRej w => fin (mklobj (lo_mru o) (lo_magic o) (lo_auth o) (lo_algo o) (lo_want o)
+                           (map o_type (parse_lenient w) ++ lo_rej o) (lo_peer o))
+                   (rcn_event (ls_fsm s) 0)
+  end.
+Fixpoint lsess_run (fl : flags) (s : lsess) (es : list lev) : lsess :=
+  match es with [] => s | e :: rest => lsess_run fl (fst (lsess_step fl s e)) rest end.
+
+(* all bytes a subscriber can send are < 256 *)
+Definition bytes_ok (b : bytes) : Prop := forall x, In x b -> (x < 256)%N.
+Definition lev_ok (e : lev) : Prop :=
+  match e with SLReq _ w | SLNak w | SLRej w => bytes_ok w | _ => True end.
